@@ -828,6 +828,9 @@ func (db *DB) Close(ctx context.Context) (err error) {
 		return err
 	}
 	defer db.execSem.Release(1)
+	if verifEnabled {
+		verifTrace("close.locked")
+	}
 
 	// Perform a final db sync, if initialized.
 	if db.db != nil {
@@ -846,6 +849,9 @@ func (db *DB) Close(ctx context.Context) (err error) {
 		db.Replica.Stop(true)
 	}
 
+	if verifEnabled {
+		verifTrace("close.synced")
+	}
 	// Release the read lock to allow other applications to handle checkpointing.
 	if db.rtx != nil {
 		if e := db.releaseReadLock(); e != nil && err == nil {
@@ -1931,6 +1937,9 @@ func (db *DB) newSyncExecutor(ctx context.Context) (*syncExecutor, error) {
 	db.mu.Lock()
 	defer db.mu.Unlock()
 
+	if verifEnabled {
+		verifTrace("exec.new")
+	}
 	if err := db.init(ctx); err != nil {
 		return nil, err
 	} else if db.db == nil {
@@ -2487,6 +2496,9 @@ func (db *DB) checkpointWithExecutor(ctx context.Context, mode string, exec *syn
 		return false, fmt.Errorf("cannot copy wal before checkpoint: %w", err)
 	}
 	exec.applySyncResult(result)
+	if verifEnabled {
+		verifTrace("chk.copied", mode)
+	}
 
 	var barrierTx *sql.Tx
 	if mode == CheckpointModePassive {
@@ -2509,6 +2521,9 @@ func (db *DB) checkpointWithExecutor(ctx context.Context, mode string, exec *syn
 			return false, fmt.Errorf("cannot seal wal before passive checkpoint: %w", err)
 		}
 		exec.applySyncResult(result)
+		if verifEnabled {
+			verifTrace("chk.sealed", mode)
+		}
 	}
 
 	frameSize := int64(db.pageSize + WALFrameHeaderSize)
@@ -2524,9 +2539,15 @@ func (db *DB) checkpointWithExecutor(ctx context.Context, mode string, exec *syn
 			s.checkpointMode = mode
 			s.lastSyncedWALOffset = exec.state.lastSyncedWALOffset
 		})
+	if verifEnabled {
+		verifTrace("chk.pre-exec", mode)
+	}
 	walFrameN, err := db.execCheckpoint(ctx, mode)
 	if err != nil {
 		return false, err
+	}
+	if verifEnabled {
+		verifTrace("chk.post-exec", mode, walFrameN)
 	}
 
 	if barrierTx != nil {
@@ -2536,8 +2557,14 @@ func (db *DB) checkpointWithExecutor(ctx context.Context, mode string, exec *syn
 		barrierTx = nil
 	}
 
+	if verifEnabled {
+		verifTrace("chk.pre-bump", mode)
+	}
 	if err = db.bumpLitestreamSeq(ctx); err != nil {
 		return false, fmt.Errorf("bump litestream seq: %w", err)
+	}
+	if verifEnabled {
+		verifTrace("chk.bumped", mode)
 	}
 
 	// If WAL hasn't been restarted, exit.
@@ -2656,6 +2683,9 @@ func (db *DB) execCheckpoint(ctx context.Context, mode string) (walFrameN int, e
 		return 0, fmt.Errorf("release read lock: %w", err)
 	}
 	defer func() { _ = db.acquireReadLock(ctx) }()
+	if verifEnabled {
+		verifTrace("chk.read-released", mode)
+	}
 
 	// A non-forced checkpoint is issued as "PASSIVE". This will only checkpoint
 	// if there are not pending transactions. A forced checkpoint ("RESTART")
